@@ -1,9 +1,36 @@
 package main
 
 import (
-	_ "golang.org/x/tools/go/packages"
-	_ "golang.org/x/tools/go/ssa"
-	_ "golang.org/x/tools/go/ssa/ssautil"
+	"fmt"
+	"os"
 )
 
-func main() {}
+func usage() {
+	fmt.Fprintln(os.Stderr, `usage:
+  govc ssa <pkg> <func>            dump NaiveForm SSA
+  govc check <property> [--tier quick|thorough]
+  govc verify <pkg>... [--func name] debugging: verify all contracts in packages`)
+	os.Exit(2)
+}
+
+func main() {
+	if len(os.Args) < 2 {
+		usage()
+	}
+	switch os.Args[1] {
+	case "ssa":
+		if len(os.Args) < 4 {
+			usage()
+		}
+		w, err := loadWorld([]string{os.Args[2]}, nil)
+		if err != nil {
+			fmt.Fprintln(os.Stderr, err)
+			os.Exit(2)
+		}
+		dumpSSA(w, repoMod+"/"+os.Args[2], os.Args[3])
+	case "check":
+		os.Exit(cmdCheck(os.Args[2:]))
+	default:
+		usage()
+	}
+}
